@@ -3,7 +3,7 @@ import lm
 import rules
 from lm import S, strip, cval, walk
 from props.common import Ctx, has, fmt_facts
-from props.containers import node_bookkeeping, dtor_discipline, is_free_call
+from props.containers import node_bookkeeping, dtor_discipline, is_free_call, itr_removed_guards
 
 LEVEL = "other"
 Q, ST, L = "Lib/structs/queue.c", "Lib/structs/stack.c", "Lib/structs/list.c"
@@ -60,6 +60,56 @@ def run(ck, P):
                            "the queue loses its tail although elements may remain" % (ev.line, f.name, sorted(conds)))
         ck.ob("C12.1-TAIL", f.site("tail store@%s" % ("NULL" if null_arms else "node")), ok, det)
 
+    ck.rule("C12.1-TAIL-DANGLING", "R-PAIR: on every path of queue.c that frees a node, q->tail is re-assigned or the path has tested that the freed "
+            "node is not the tail — the tail never keeps pointing at freed memory", floor=2)
+    for fname in ("m_queue_itr_remove", "m_queue_dequeue"):
+        f = P.fn(fname, Q)
+        ex = rules.Expander(f, stable=False)
+        frees = [e for e in f.events() if is_free_call(e) and strip(e.args[0]).get("t") == "queue_elem *"]
+        ck.need(frees, "%s no longer frees a node" % fname)
+        bad = None
+        n = 0
+        for path in f.paths():
+            evs = list(rules.path_events(f, path))
+            for fr in frees:
+                if fr not in evs:
+                    continue
+                n += 1
+                node = S(fr.args[0])
+                names = {node, ex.at(fr, fr.args[0])}
+                # the node may have been read through another name before the links changed (elem = q->head)
+                for d in f.events():
+                    if d.kind == "decl" and d.e.get("name") == node and d.rhs is not None:
+                        names.add(S(d.rhs))
+                stores = [e for e in evs if e.kind == "assign" and S(e.lhs).endswith("->tail")]
+                a = rules.path_assumes(path)
+                excluded = any(v is False and "tail" in k and any(nm in k for nm in names) for k, v in a.items())
+                if not stores and not excluded:
+                    bad = (fr, path)
+        ck.ob("C12.1-TAIL-DANGLING", f.site("tail after free"), bad is None and n > 0,
+              "%d freeing path(s): tail re-assigned or known not to be the freed node" % n if bad is None else
+              "node freed at line %d while q->tail may still point at it (no store to tail, no test that the node is not the tail on this path)" % bad[0].line,
+              path=rules.fmt_path(f, bad[1]) if bad else None)
+
+    ck.rule("C12.4-LIST-ITR-STEP", "R-RESET-ALL: every path through m_list_itr_next on which the iterator still designates an element resets the "
+            "insert/remove compensation (itr->diff = 0): the compensation is per step and must not leak into the next one", floor=1)
+    ln = P.fn("m_list_itr_next", L)
+    ck.analysed(ln)
+    bad = None
+    n = 0
+    for path in ln.paths():
+        a = rules.path_assumes(path)
+        if a.get("*i->elem") is not True:
+            continue
+        evs = list(rules.path_events(ln, path))
+        n += 1
+        resets = [e for e in evs if e.kind == "assign" and S(e.lhs) == "i->diff" and cval(e.rhs) == 0]
+        if not resets:
+            bad = path
+    ck.ob("C12.4-LIST-ITR-STEP", ln.site("diff reset"), bad is None and n > 0, "%d path(s) with a current element all reset diff" % n if bad is None else
+          "a step of the list iterator leaves diff unchanged: a +1 from an earlier insert later cancels the -1 of a remove and the element after "
+          "the removed one is skipped", path=rules.fmt_path(ln, bad) if bad else None)
+
     # ------------------------------------------------------------------ 2. length and destructor pairing
     ck.rule("C12.2-LEN", "R-PAIR: per container, on every path a node allocation that succeeds pairs with len++ and a node free "
             "with len--", floor=8)
@@ -94,6 +144,10 @@ def run(ck, P):
                 ok = ok and any(arg == fr + "->userptr" for fr in freed)
                 det = "destructor receives '%s', freed node is %s" % (arg, freed)
             ck.ob("C12.2-DTOR", f.site("dtor target"), ok, det or "no destructor/free pair found")
+
+    ck.rule("C12.5-ITR-REMOVED", "R-GUARD: queue/stack iterator remove/get/set refuse once the current element was removed through the iterator", floor=6)
+    itr_removed_guards(ck, P, X, "C12.5-ITR-REMOVED", Q, "m_queue")
+    itr_removed_guards(ck, P, X, "C12.5-ITR-REMOVED", ST, "m_stack")
 
     # ------------------------------------------------------------------ 3. order primitives
     ck.rule("C12.3-ORDER", "R-SHAPE: enqueue links the new node behind tail and makes it the tail, dequeue/peek take from head and "
